@@ -1397,6 +1397,22 @@ def check_idl(R):
         outs = any(cclass(t) in ("int*", "double*") for t, a in ua)
         if (kind == "PROCEDURE") != (cclass(p["ret"]) == "void" or outs):
             proto_violation(R, "idl", n, "ret", case, "returns " + p["ret"], l)
+    # the C glue of the DLM: one macro instantiation per wrapped function, the macro name spells the argument types the glue converts the IDL
+    # values to (XRL_2IF = 2 arguments: Int, Float(double); S = string).  Whatever the spelling says must be the C prototype.
+    glue = read(C.repo, "idl/xraylib_idl.c")
+    if glue is not None:
+        gs = c_like_strip(glue)
+        for m in re.finditer(r"^\s*XRL_(\d+)([IFS]+)\s*\(\s*(\w+)\s*\)\s*;?\s*$", gs, re.M):
+            cnt, letters, name = int(m.group(1)), m.group(2), m.group(3)
+            n, p = C.proto(name, ci=True)
+            case = dict(binding="idl", function=name, file="idl/xraylib_idl.c", line=lineno(gs, m.start()), macro="XRL_%d%s" % (cnt, letters))
+            R.cmp("proto:idl:glue", case)
+            if p is None:
+                proto_violation(R, "idl", name, "unknown", case, "a function of the C library", m.group(0).strip())
+                continue
+            want = "".join({"int": "I", "double": "F", "str": "S"}.get(cclass(tt), "?") for tt, a in user_args(p))
+            if cnt != len(letters) or letters != want:
+                proto_violation(R, "idl", n, "argtype", case, "XRL_%d%s for %s" % (len(want), want, c_sig(p)), "XRL_%d%s" % (cnt, letters))
     check_complete(R, "idl", have, main)
 
 
